@@ -83,6 +83,20 @@ def _as_comprehension(loop: ast.For, name: str, kind: str):
     if len(body) == 1 and isinstance(body[0], ast.If) and not body[0].orelse:
         cond = body[0].test
         body = body[0].body
+    # leading temporaries used once in the rest of the body are folded into it
+    body = [ast_copy(x) for x in body]
+    while len(body) > 1 and isinstance(body[0], ast.Assign) and len(body[0].targets) == 1 and isinstance(body[0].targets[0], ast.Name):
+        tmp = body[0].targets[0].id
+        uses = [n for b in body[1:] for n in ast.walk(b) if isinstance(n, ast.Name) and n.id == tmp]
+        if len(uses) != 1 or tmp == name:
+            break
+        val = body[0].value
+
+        class S(ast.NodeTransformer):
+            def visit_Name(self, n):
+                return ast_copy(val) if n.id == tmp and isinstance(n.ctx, ast.Load) else n
+
+        body = [S().visit(b) for b in body[1:]]
     if len(body) != 1:
         return None
     st = body[0]
